@@ -84,6 +84,8 @@ pub fn snap(h: &LeanString) -> Snap {
                         unreadable = Some("static text extends past the caller's bytes");
                     }
                 }
+                // an empty string may point anywhere (e.g. at a constant inside the crate): nothing is read
+                None if len == 0 => {}
                 None => unreadable = Some("non-heap text pointer outside the handle and the static arena"),
             }
         }
@@ -1060,6 +1062,8 @@ pub fn run_case(slots_n: usize, heap_cfg: &super::heapcfg::HeapCfg, fail_run_req
     let mut executed = Vec::new();
     let mut violation = None;
     let mut idx = 0usize;
+    // blocks on which some handle was shortened while the buffer was shared (stale bytes behind it)
+    let mut stale_blocks = std::collections::BTreeSet::new();
     while let Some(mut st) = src.next(&w.models) {
         if st.slot >= slots_n {
             st.slot %= slots_n;
@@ -1094,7 +1098,7 @@ pub fn run_case(slots_n: usize, heap_cfg: &super::heapcfg::HeapCfg, fail_run_req
             stats.requests_per_step.push((d.alloc + d.realloc) as u32);
             stats.callbacks_per_step.push(callbacks as u32);
         }
-        probes(&ctx, &mut stats);
+        probes(&ctx, &mut stats, &mut stale_blocks);
         let mut fix = None;
         let mut v = check_step(&ctx, &mut stats, &mut fix);
         if let Some(m) = fix {
@@ -1181,7 +1185,7 @@ fn fix_slots(op: &mut Op, n: usize) {
 }
 
 /// "This rare condition was hit" counters.
-fn probes(c: &Ctx<'_>, stats: &mut RunStats) {
+fn probes(c: &Ctx<'_>, stats: &mut RunStats, stale: &mut std::collections::BTreeSet<usize>) {
     let t = c.st.slot;
     let (Some(Some(a)), Some(Some(b))) = (c.pre.get(t), c.post.get(t)) else { return };
     if !matches!(c.real, Outcome::Returned(_)) {
@@ -1201,12 +1205,20 @@ fn probes(c: &Ctx<'_>, stats: &mut RunStats) {
         _ => {}
     }
     if a.class == Storage::Heap && a.rc == Some(1) && b.class == Storage::Heap && b.ptr == a.ptr && b.len > a.len {
-        // in-place growth of a sole owner; was the buffer longer than this handle's text before
-        // (i.e. written over stale bytes left by a truncation or by a former co-owner)?
         stats.probe("in_place_write_by_sole_owner");
+        // the compound ordering of C01/C02: shortened while shared, co-owners gone, then written
+        // in place over the stale bytes
+        if let Some((id, _)) = a.block {
+            if stale.contains(&id) {
+                stats.probe("in_place_write_over_stale_bytes_after_shared_truncate");
+            }
+        }
     }
     if matches!(c.st.op, Op::Truncate { .. } | Op::Pop { .. }) && a.class == Storage::Heap && a.rc.is_some_and(|r| r > 1) && b.len < a.len {
         stats.probe("truncate_while_shared");
+        if let Some((id, _)) = a.block {
+            stale.insert(id);
+        }
     }
     if matches!(c.st.op, Op::CloneFrom { .. }) && a.class == Storage::Heap && a.rc == Some(1) {
         stats.probe("clone_from_onto_last_owner");
